@@ -250,6 +250,8 @@ type StreamOpts struct {
 	OnlyMesg   uint16 // if non-zero, restrict hosted data messages to this one
 	BigArr     bool
 	NoLocalTS  bool
+	WinStart   int // with OnlyMesg: definitions take the profile fields [WinStart, WinStart+WinLen) (cyclic)
+	WinLen     int
 }
 
 var accumSources = map[byte]bool{} // record field numbers that feed accumulators
@@ -342,6 +344,16 @@ func (g *streamGen) defFor(local byte, gl uint16) *DefOp {
 			n = len(pfs)
 		}
 		perm := r.Perm(len(pfs))
+		if g.o.OnlyMesg == gl && g.o.WinLen > 0 {
+			n = g.o.WinLen
+			if n > len(pfs) {
+				n = len(pfs)
+			}
+			perm = perm[:0]
+			for _, j := range r.Perm(n) {
+				perm = append(perm, (g.o.WinStart+j)%len(pfs))
+			}
+		}
 		for _, pi := range perm[:n] {
 			pf := pfs[pi]
 			if gl == gRecord && !g.o.Accum && accumSources[pf.Num] {
